@@ -87,6 +87,28 @@ def r11_2(ck, F):
     ck.expect(ok, "SendError::is_closed", "true iff Closed{gracefully: true}", "is_closed is not tied to a graceful close", b.loc(0))
 
 
+def r11_8(ck, F):
+    ck.rule("R11.8", "a dropped receiver always re-classifies the port: every non-error path through the ReceiveFinish arm of "
+            "handle_received_msg calls CreditProvider::close(false) (which also wakes every sender waiting for credit), "
+            "whether or not a ReceiveClose was processed before",
+            "Receiver::close() followed by dropping the receiver, sender with set_override_graceful_close(true) (what "
+            "chmux::forward uses) waiting for credit: `closed` stays Some(true), nobody wakes the waiter — the send "
+            "hangs forever instead of failing with Closed { gracefully: false }", floor=1)
+    hr = F.main_body(HANDLE_RECEIVED)
+    arms, sw, _ = event_arms(hr, MUX_MSG)
+    s_, tb, region = arms["ReceiveFinish"]
+    closes = {bb for bb, t in hr.calls("chmux::credit::CreditProvider::close") if bb in region and
+              const_value(hr.expr(t["a"][1])) == 0}
+    oks = {bb for bb, i, v in hr.result_stores("Ok")} | set(hr.returns())
+    errs = {bb for bb, t in hr.calls() if (callee(t) or "").endswith("protocol_err") and bb in region}
+    p = hr.find_path([tb], list(oks), avoid=closes | errs)
+    ck.expect(bool(closes) and p is None, "handle_received_msg#ReceiveFinish-always-closes",
+              "close(false) on every non-error path of the ReceiveFinish arm",
+              "the ReceiveFinish arm of handle_received_msg can complete without CreditProvider::close(false): after an earlier "
+              "ReceiveClose the credit pool stays 'gracefully closed' and senders that override graceful close wait forever",
+              hr.loc(tb), {"path": [hr.loc(x) for x in (p or [])][:12]})
+
+
 def r11_3(ck, F):
     ck.rule("R11.3", "close gates new sends only: in CreditUser::request / try_request the closed test dominates every "
             "grant (store to the pool / Ok result); the ReceiveClose arm leaves receiver_tx_data untouched",
@@ -145,7 +167,7 @@ def r11_4(ck, F):
     cerr = int(F.const("rch::BACKCHANNEL_MSG_ERROR")["value"])
     ck.expect(cclose != cerr and set(vals) == {cclose, cerr}, "send_impl#codes", f"dispatch on {sorted(vals)}",
               f"send_impl dispatches on {sorted(vals)}; constants are CLOSE={cclose} ERROR={cerr}", sb.loc(s0))
-    reach = {c: sb.reach([tb]) for c, tb in vals.items()}
+    reach = {c: sb.reach([tb], avoid=[s0]) for c, tb in vals.items()}    # arms may merge and loop back: do not re-enter the dispatch
     for c, name, want_reason, want_err in ((cclose, "CLOSE", "Closed", "Closed"), (cerr, "ERROR", "Failed", "Forward")):
         if c not in vals:
             continue
@@ -240,5 +262,5 @@ def r11_7(ck, F):
 
 
 def run(ck, F):
-    for r in (r11_1, r11_2, r11_3, r11_4, r11_5, r11_6, r11_7):
+    for r in (r11_1, r11_2, r11_3, r11_4, r11_5, r11_6, r11_7, r11_8):
         ck.run_rule(r)
